@@ -671,7 +671,8 @@ func cmdRun(id, tier string, replayIdx int, replayPart string, verbose bool) int
 	merged["seed"] = seed
 	merged["level"] = pr.Level
 	merged["coverage"] = cov
-	merged["assumptions"] = pr.Assumptions
+	assume := append([]string{"the harness attaches only through public extension points; checks rebuild from /repo's working tree"}, pr.Assumptions...)
+	merged["assumptions"] = assume
 	merged["wall_s"] = time.Since(start).Seconds()
 	merged["violations"] = nNew
 	if len(samples) == 0 {
